@@ -89,7 +89,8 @@ def run(H, tier, rng):
                     sname, name, np.asarray(removed).tolist(), exp.tolist()), {"curve": name, "sim": sname}, clause="simplifier-table")
 
 
-Harness("C07", "all index subsets of {0..n-1} containing both ends for n<=bound x position lists (all subsets of positions when "
-        "the reduction has <=5 points, 6 patterns otherwise) x row permutations (all for <=4 rows, 4 otherwise); plus six simplifier "
-        "configurations on the curve families; a case is non-trivial when something was removed and a position is queried",
-        "n <= 9 (quick) / 11 (thorough)").main(run, replay)
+if __name__ == "__main__":
+    Harness("C07", "all index subsets of {0..n-1} containing both ends for n<=bound x position lists (all subsets of positions when "
+            "the reduction has <=5 points, 6 patterns otherwise) x row permutations (all for <=4 rows, 4 otherwise); plus six simplifier "
+            "configurations on the curve families; a case is non-trivial when something was removed and a position is queried",
+            "n <= 9 (quick) / 11 (thorough)").main(run, replay)
